@@ -157,12 +157,20 @@ pub fn same_result(r: &Result<u32, ProtocolError>, o: &Outcome) -> bool {
     }
 }
 
-/// Specification of one back-off growth step: multiply, clamp to the maximum; an undefined product
-/// (NaN: NaN multiplier, 0 * inf) counts as "beyond the maximum".
+/// Specification of one back-off growth step: multiply and clamp to [0, max_backoff]; an undefined
+/// product (NaN: NaN multiplier, 0 * inf) counts as "beyond the maximum", a negative one as zero.
 pub fn spec_next_backoff(b: Duration, m: f64, max: Duration) -> Duration {
     let grown = b.as_secs_f64() * m;
-    let cap = max.as_secs_f64();
-    if grown < cap { Duration::from_secs_f64(grown) } else { Duration::from_secs_f64(cap) }
+    if grown.is_nan() {
+        return max;
+    }
+    if grown <= 0.0 {
+        return Duration::ZERO;
+    }
+    match Duration::try_from_secs_f64(grown) {
+        Ok(d) if d < max => d,
+        _ => max,
+    }
 }
 
 pub const TWO_POW_62: u64 = 1 << 62;
@@ -270,11 +278,7 @@ macro_rules! retry_loop_nojitter {
                 outs[i] = any_outcome();
                 i += 1;
             }
-            // Documented-configuration region of this harness (the complement is examined by the
-            // c14_kf_* harnesses): multiplier not negative (NaN, +inf, -0.0, subnormals included);
-            // max_backoff below 2^62 s.  initial_backoff is unconstrained (incl. > max_backoff, 0).
-            kani::assume(!(m < 0.0));
-            kani::assume(max.as_secs() < TWO_POW_62);
+            // no region restriction: any multiplier bit pattern, any Durations
             let policy = RetryPolicy { max_attempts, initial_backoff: initial, max_backoff: max, multiplier: m, jitter: false };
 
             let (res, calls) = run::<N>(&policy, &outs);
@@ -305,18 +309,17 @@ macro_rules! retry_loop_nojitter {
                     assert!(d == outs[j].hint, "hinted wait must equal the Retry-After hint");
                 } else {
                     if j == 0 {
-                        assert!(d == initial, "first un-hinted wait must be initial_backoff");
+                        assert!(d == if initial < max { initial } else { max }, "first un-hinted wait must be min(initial_backoff, max_backoff)");
                     }
-                    // (the first wait is initial_backoff even when that exceeds max_backoff: reported
-                    // separately by c14_kf_initial_exceeds_max)
-                    if (j >= 1 || initial <= max) && max.subsec_nanos() == 0 && max.as_secs() <= (1 << 53) {
-                        assert!(d <= max, "un-hinted wait exceeds max_backoff");
+                    assert!(d <= max, "un-hinted wait exceeds max_backoff");
+                    if j >= 1 && m <= 0.0 && m.is_finite() {
+                        assert!(d.is_zero(), "a negative or zero product must give a zero back-off");
                     }
                 }
             }
             if EXACT {
                 // reference back-off sequence: grows on every failed attempt, hinted or not
-                let mut b = initial;
+                let mut b = if initial < max { initial } else { max };
                 let mut k = 0;
                 while k < N - 1 {
                     if k < stop {
@@ -337,19 +340,20 @@ macro_rules! retry_loop_nojitter {
 }
 
 // @family prop=C14 tier=quick timeout=900 role=retry-loop-control
-// @bounds max_attempts symbolic 0..=MAXA (name: a<MAXA>), outcome sequence of length MAXA+2 symbolic over {Ok(v), Timeout, ServiceUnavailable, RateLimited{None}, RateLimited{Some(any Duration)}, InvalidKey, Parse, HttpStatus(100..=999), ServerError(100..=999), AllHostsFailed, RangeNotSupported}; initial_backoff any Duration (incl. 0 and > max_backoff); max_backoff any Duration < 2^62 s; multiplier any f64 bit pattern that is not < 0 (NaN, +inf, -0.0, subnormals included); jitter off
+// @bounds max_attempts symbolic 0..=MAXA (name: a<MAXA>), outcome sequence of length MAXA+2 symbolic over {Ok(v), Timeout, ServiceUnavailable, RateLimited{None}, RateLimited{Some(any Duration)}, InvalidKey, Parse, HttpStatus(100..=999), ServerError(100..=999), AllHostsFailed, RangeNotSupported}; initial_backoff any Duration (incl. 0 and > max_backoff); max_backoff any Duration; multiplier ANY f64 bit pattern (NaN, +-inf, negative, -0.0, subnormals); jitter off
 // @encodes cascette_protocol::retry::RetryPolicy::execute, cascette_protocol::retry::sleep, cascette_protocol::error::ProtocolError::should_retry, cascette_protocol::error::ProtocolError::retry_after_hint
-// @assumes hook H2: retry::sleep records the delay instead of tokio::time::sleep; minimal executor (single poll, noop waker; Pending = hang = failure); tracing neutralised (3 stubs); fmt::format stubbed to empty; rand::rng / ThreadRng::try_next_u64 stubbed (not reached: jitter off); reqwest::Error::is_timeout/is_connect stubbed to false (ProtocolError::Http is never constructed); io::ErrorKind::from_prim stubbed (only reached from the drop glue of io::Error, which is never constructed); region: multiplier not negative and max_backoff < 2^62 s (complement: c14_kf_* harnesses)
-// @catches attempt counter off by one (`>` vs `>=`), rate-limited attempts not consuming budget, retry after a non-retryable error / after Ok, wrong result returned (first instead of last error), hint ignored or applied to un-hinted errors, back-off not clamped / clamped with max instead of min, sleep dropped or doubled, waiting after the final attempt, panic for NaN / inf / subnormal multipliers
+// @assumes hook H2: retry::sleep records the delay instead of tokio::time::sleep; minimal executor (single poll, noop waker; Pending = hang = failure); tracing neutralised (3 stubs); fmt::format stubbed to empty; rand::rng / ThreadRng::try_next_u64 stubbed (not reached: jitter off); reqwest::Error::is_timeout/is_connect stubbed to false (ProtocolError::Http is never constructed); io::ErrorKind::from_prim stubbed (only reached from the drop glue of io::Error, which is never constructed)
+// @catches attempt counter off by one (`>` vs `>=`), rate-limited attempts not consuming budget, retry after a non-retryable error / after Ok, wrong result returned (first instead of last error), hint ignored or applied to un-hinted errors, back-off not clamped / clamped with max instead of min, sleep dropped or doubled, waiting after the final attempt, panic for NaN / inf / negative / subnormal multipliers or huge Durations, first wait not clamped to max_backoff, negative product not mapped to zero
 retry_loop_nojitter!(c14_retry_loop_control_a1, 1, 4, any_duration(), any_duration(), f64::from_bits(kani::any::<u64>()), false);
+retry_loop_nojitter!(c14_retry_loop_control_a3, 3, 6, any_duration(), any_duration(), f64::from_bits(kani::any::<u64>()), false);
 // @end
 
 // @family prop=C14 tier=thorough timeout=3300 mem=24 role=retry-loop-control-deep
-// @bounds as c14_retry_loop_control_a1 with max_attempts symbolic 0..=MAXA (a2: 0..=2, 4 outcomes; a3: 0..=3, 5 outcomes)
+// @bounds as c14_retry_loop_control_a1 with max_attempts symbolic 0..=MAXA (a2: 0..=2, 4 outcomes; a5: 0..=5, 7 outcomes)
 // @encodes cascette_protocol::retry::RetryPolicy::execute, cascette_protocol::retry::sleep, cascette_protocol::error::ProtocolError::should_retry, cascette_protocol::error::ProtocolError::retry_after_hint
 // @assumes as c14_retry_loop_control_a1
 retry_loop_nojitter!(c14_retry_loop_control_a2, 2, 5, any_duration(), any_duration(), f64::from_bits(kani::any::<u64>()), false);
-retry_loop_nojitter!(c14_retry_loop_control_a3, 3, 6, any_duration(), any_duration(), f64::from_bits(kani::any::<u64>()), false);
+retry_loop_nojitter!(c14_retry_loop_control_a5, 5, 8, any_duration(), any_duration(), f64::from_bits(kani::any::<u64>()), false);
 // @end
 
 const fn ms(n: u64) -> Duration {
@@ -367,7 +371,7 @@ retry_loop_nojitter!(c14_retry_loop_growth_nan, 3, 6, ms(1_000), ms(10_000), f64
 retry_loop_nojitter!(c14_retry_loop_growth_zero, 3, 6, ms(0), ms(10_000), 2.0, true);
 // @end
 // @family prop=C14 tier=thorough timeout=3300 mem=24 role=retry-loop-growth-grid-rest
-// @bounds as c14_retry_loop_growth_default for further grid points: x1, x0 (collapses to 0), x10, x1e300 (huge -> clamp), +inf, x1.5 with fractional ns, initial > max (first wait unclamped, then max), max_attempts 0..=5 with 7 outcomes for the default policy
+// @bounds as c14_retry_loop_growth_default for further grid points: x1, x0 (collapses to 0), x10, x1e300 (huge -> clamp), +inf, x1.5 with fractional ns, initial > max (every wait = max), max_attempts 0..=5 with 7 outcomes for the default policy
 // @encodes cascette_protocol::retry::RetryPolicy::execute, cascette_protocol::retry::sleep
 // @assumes as c14_retry_loop_growth_default
 retry_loop_nojitter!(c14_retry_loop_growth_m1, 3, 6, ms(250), ms(10_000), 1.0, true);
@@ -380,35 +384,12 @@ retry_loop_nojitter!(c14_retry_loop_growth_init_gt_max, 3, 6, ms(20_000), ms(10_
 retry_loop_nojitter!(c14_retry_loop_growth_default_a5, 5, 8, ms(100), ms(10_000), 2.0, true);
 // @end
 
-// ---- known-defect regions: one harness each ----------------------------------------------------
-// Under the model checker the two panicking std operations are replaced by checking twins whose
-// assertion carries the "KF:" label; in native replay the stubs are inactive and the real std
-// function panics on the same input.
-pub fn kf_from_secs_f64(secs: f64) -> Duration {
-    match Duration::try_from_secs_f64(secs) {
-        Ok(d) => d,
-        Err(_) => {
-            assert!(false, "KF: Duration::from_secs_f64 panics: next back-off is negative or does not fit a Duration");
-            Duration::ZERO
-        }
-    }
-}
-pub fn kf_add_assign(a: &mut Duration, b: Duration) {
-    match a.checked_add(b) {
-        Some(s) => *a = s,
-        None => kf_add_overflow(),
-    }
-}
-// separate fn: the driver's log parser needs a check name without spaces (not a trait-impl path)
-#[inline(never)]
-fn kf_add_overflow() {
-    assert!(false, "KF: delay += jitter overflows Duration and panics");
-}
-
-macro_rules! kf_harness {
+// ---- regression harnesses for the four fixed defects (one input region each) ---------------------
+// Two retryable failures, then Ok; max_attempts = 2; everything symbolic inside the region.
+macro_rules! fixed_defect_harness {
     ($name:ident, $body:expr) => {
         #[kani::proof]
-        #[kani::unwind(3)]
+        #[kani::unwind(4)]
         #[kani::stub(tracing_core::callsite::DefaultCallsite::interest, interest_never)]
         #[kani::stub(tracing::__macro_support::__is_enabled, is_enabled_false)]
         #[kani::stub(tracing_core::event::Event::dispatch, dispatch_nop)]
@@ -418,61 +399,63 @@ macro_rules! kf_harness {
         #[kani::stub(reqwest::Error::is_timeout, reqwest_pred_false)]
         #[kani::stub(reqwest::Error::is_connect, reqwest_pred_false)]
         #[kani::stub(std::io::ErrorKind::from_prim, error_kind_from_prim_other)]
-        #[kani::stub(std::time::Duration::from_secs_f64, kf_from_secs_f64)]
-        #[kani::stub(<std::time::Duration as std::ops::AddAssign>::add_assign, kf_add_assign)]
         fn $name() {
             let initial = any_duration();
             let max = any_duration();
             let m = f64::from_bits(kani::any::<u64>());
             let jitter: bool = kani::any();
             let first = any_outcome();
-            let w: u64 = kani::any();
+            let second = any_outcome();
+            let w: [u64; 2] = kani::any();
             kani::assume(first.kind != K_OK && spec_retryable(&first));
-            let outs = [first, Outcome { kind: K_OK, val: 1, code: 100, hint: Duration::ZERO }];
+            kani::assume(second.kind != K_OK && spec_retryable(&second));
+            let outs = [first, second, Outcome { kind: K_OK, val: 1, code: 100, hint: Duration::ZERO }];
             unsafe {
-                JITTER_WORDS[0] = w;
+                JITTER_WORDS[0] = w[0];
+                JITTER_WORDS[1] = w[1];
                 JITTER_DRAWS = 0;
             }
             let f: fn(&Outcome, Duration, Duration, f64, bool) -> bool = $body;
             kani::assume(f(&first, initial, max, m, jitter));
-            let policy = RetryPolicy { max_attempts: 1, initial_backoff: initial, max_backoff: max, multiplier: m, jitter };
-            let (res, calls) = run::<2>(&policy, &outs);
-            assert!(calls == 2 && same_result(&res, &outs[1]), "one retry, then the success is returned");
-            assert!(clock::count() == 1, "one wait");
-            if !jitter && first.kind != K_RATE_HINT {
-                assert!(clock::get(0) <= max, "KF: first wait is initial_backoff even when it exceeds max_backoff");
+            let policy = RetryPolicy { max_attempts: 2, initial_backoff: initial, max_backoff: max, multiplier: m, jitter };
+            let (res, calls) = run::<3>(&policy, &outs); // reaching the end = no panic
+            assert!(calls == 3 && same_result(&res, &outs[2]), "two retries, then the success is returned");
+            assert!(clock::count() == 2, "two waits");
+            let (d0, d1) = (clock::get(0), clock::get(1));
+            let floor0 = if initial < max { initial } else { max };
+            if first.kind == K_RATE_HINT {
+                assert!(d0 >= first.hint, "hinted wait must not be shorter than the hint");
+                assert!(jitter || d0 == first.hint, "hinted wait without jitter must equal the hint");
+            } else {
+                assert!(d0 >= floor0, "jitter must not shorten the first wait");
+                assert!(jitter || d0 == floor0, "first wait must be min(initial_backoff, max_backoff)");
             }
-            // (no kani::cover! here: the driver replays the first generated playback test, which would
-            // be the cover witness instead of the failing input)
+            if second.kind != K_RATE_HINT && !jitter {
+                assert!(d1 <= max, "second wait exceeds max_backoff");
+                if m <= 0.0 && m.is_finite() {
+                    assert!(d1.is_zero(), "a negative or zero product must give a zero back-off");
+                }
+            }
+            if second.kind == K_RATE_HINT {
+                assert!(d1 >= second.hint, "hinted wait must not be shorter than the hint");
+            }
+            kani::cover!(first.kind == K_RATE_HINT, "first failure hinted");
+            kani::cover!(first.kind != K_RATE_HINT && second.kind != K_RATE_HINT, "both failures un-hinted");
             std::mem::forget(res);
         }
     };
 }
 
-// @harness prop=C14 tier=quick timeout=900 role=kf-negative-multiplier
-// @bounds one retryable failure (kind symbolic) then Ok, max_attempts = 1; multiplier any f64 < 0 (incl. -inf), initial_backoff any non-zero Duration <= max_backoff < 2^62 s, jitter off
-// @encodes cascette_protocol::retry::RetryPolicy::execute
-// @assumes as c14_retry_loop_control_a1; Duration::from_secs_f64 replaced by a twin that asserts (label KF:) where the real one panics; EXPECTED TO FAIL on the unchanged tree: genuine defect (negative CASCETTE_BACKOFF_MULTIPLIER panics in Duration::from_secs_f64 after the first failed attempt)
-// @catches (documents) panic for negative multipliers
-kf_harness!(c14_kf_negative_multiplier, |_o, i, mx, m, j| m < 0.0 && !j && i <= mx && !i.is_zero() && mx.as_secs() < TWO_POW_62);
-
-// @harness prop=C14 tier=quick timeout=900 role=kf-max-backoff-f64-overflow
-// @bounds one retryable failure then Ok, max_attempts = 1; max_backoff >= 2^64 - 1024 s (as f64 it is 2^64), initial_backoff <= max_backoff, multiplier any f64 >= 0 or NaN, jitter off
-// @encodes cascette_protocol::retry::RetryPolicy::execute
-// @assumes as c14_kf_negative_multiplier; EXPECTED TO FAIL on the unchanged tree: genuine defect (CASCETTE_MAX_BACKOFF near u64::MAX with a large product: max_backoff.as_secs_f64() rounds up to 2^64, which Duration::from_secs_f64 rejects)
-kf_harness!(c14_kf_max_backoff_overflow, |_o, i, mx, m, j| !(m < 0.0) && !j && i <= mx && mx.as_secs() >= u64::MAX - 1023);
-
-// @harness prop=C14 tier=quick timeout=900 role=kf-initial-exceeds-max
-// @bounds one retryable un-hinted failure then Ok, max_attempts = 1; initial_backoff > max_backoff (both < 2^62 s), multiplier any f64 not < 0, jitter off
-// @encodes cascette_protocol::retry::RetryPolicy::execute
-// @assumes as c14_kf_negative_multiplier; EXPECTED TO FAIL on the unchanged tree: genuine defect (the first wait is initial_backoff, never clamped to max_backoff)
-kf_harness!(c14_kf_initial_exceeds_max, |o, i, mx, m, j| !(m < 0.0) && !j && i > mx && i.as_secs() < TWO_POW_62 && o.kind != K_RATE_HINT);
-
-// @harness prop=C14 tier=quick timeout=900 role=kf-jitter-overflow
-// @bounds one rate-limited failure with a Retry-After hint >= 2^63 s then Ok, max_attempts = 1, jitter on (jitter word symbolic), multiplier 2.0, initial <= max < 2^62 s
-// @encodes cascette_protocol::retry::RetryPolicy::execute
-// @assumes as c14_kf_negative_multiplier; <Duration as AddAssign>::add_assign replaced by a twin that asserts (label KF:) where the real one panics; EXPECTED TO FAIL on the unchanged tree: genuine defect (a server-supplied Retry-After near u64::MAX seconds plus jitter overflows Duration; the default policy has jitter on)
-kf_harness!(c14_kf_jitter_overflow, |o, i, mx, m, j| m == 2.0 && j && i <= mx && mx.as_secs() < TWO_POW_62 && o.kind == K_RATE_HINT && o.hint.as_secs() >= (1 << 63));
+// @family prop=C14 tier=quick timeout=900 role=fixed-defect-regressions
+// @bounds two retryable failures (kinds, codes, hints symbolic) then Ok, max_attempts = 2; initial_backoff / max_backoff any Duration, multiplier any f64 bit pattern, jitter symbolic (two generator words symbolic), restricted per harness to the region of one formerly panicking / unclamped input class: negative_multiplier: m < 0 (incl. -inf), jitter off; max_backoff_overflow: max_backoff >= 2^64-1024 s, jitter off; initial_exceeds_max: initial_backoff > max_backoff, first failure un-hinted, jitter off; jitter_overflow: jitter on, first failure hinted with Retry-After >= 2^63 s
+// @encodes cascette_protocol::retry::RetryPolicy::execute, cascette_protocol::retry::sleep
+// @assumes as c14_retry_loop_control_a1 (no std arithmetic is stubbed: a panic in Duration::from_secs_f64 / Duration addition fails the harness); the 30% jitter bound itself is checked by the c14_retry_jitter_* harnesses
+// @catches reintroduced panics (Duration::from_secs_f64 on a negative / NaN / too large product, `delay += jitter` overflow), first wait not clamped to max_backoff, negative product not mapped to a zero back-off, jitter shortening a wait
+fixed_defect_harness!(c14_kf_negative_multiplier, |_o, _i, _mx, m, j| m < 0.0 && !j);
+fixed_defect_harness!(c14_kf_max_backoff_overflow, |_o, _i, mx, _m, j| !j && mx.as_secs() >= u64::MAX - 1023);
+fixed_defect_harness!(c14_kf_initial_exceeds_max, |o, i, mx, _m, j| !j && i > mx && o.kind != K_RATE_HINT);
+fixed_defect_harness!(c14_kf_jitter_overflow, |o, _i, _mx, _m, j| j && o.kind == K_RATE_HINT && o.hint.as_secs() >= (1 << 63));
+// @end
 
 // ---- jitter -----------------------------------------------------------------------------------
 // One retry with jitter on.  The generator word is drawn by the harness; the real
